@@ -917,7 +917,7 @@ public:
     if (this->is_bottom() || x.is_bottom()) {
       return this->bottom();
     } else {
-      auto f = [](interval_t a, interval_t b) { return a / b; };
+      auto f = [](interval_t a, interval_t b) { return a.UDiv(b); };
       return apply_bin_op(*this, x, f, false);
     }
   }
